@@ -161,6 +161,11 @@ func (p *Place) elemPath() string {
 	switch {
 	case p == nil || p.Kind == "chain":
 		return ""
+	case p.Kind == "ctx":
+		if p.Form == "svg-loop" {
+			return loopVar
+		}
+		return ""
 	case p.Kind == "loop":
 		return p.loopVar()
 	case p.Form == "var" || p.Form == "hash":
@@ -184,6 +189,8 @@ func isIdent(s string) bool {
 // valid reports whether the fields combine (incs[j] is the include carrying p).
 func (p *Place) valid(incs []Inc, j int) bool {
 	switch p.Kind {
+	case "ctx": // the tag stands inside foreign content or a table: <svg><g>, <math><mrow>, <table><tr><td>, <svg><g v-for>
+		return p.Form == "svg" || p.Form == "math" || p.Form == "table" || p.Form == "svg-loop"
 	case "loop":
 		return p.Form == "" && (p.Var == "" || isIdent(p.Var)) && (p.Idx == "" || isIdent(p.Idx)) && p.Idx != p.loopVar()
 	case "slot-loop-named":
@@ -225,6 +232,16 @@ func (p *Place) directive() string {
 // wrap returns the text around (and including) the include tag.
 func (p *Place) wrap(tag, blk string, incs []Inc, j int, short bool) string {
 	switch p.Kind {
+	case "ctx":
+		switch p.Form {
+		case "svg":
+			return "<svg><g>\n" + tag + "</g></svg>\n"
+		case "math":
+			return "<math><mrow>\n" + tag + "</mrow></math>\n"
+		case "table":
+			return "<table><tr><td>\n" + tag + "</td></tr></table>\n"
+		}
+		return `<svg><g v-for="` + loopVar + ` in ` + rowsVar + `">` + "\n" + tag + "</g></svg>\n"
 	case "loop":
 		v := p.loopVar()
 		if p.Idx != "" {
@@ -318,6 +335,11 @@ type Comp struct {
 	// Slot: the component has <slot> elements that bind no props, after its first block and
 	// followed by a second block (id C<i>.s): "default" (<slot>), "named" (<slot name="s1">), "both".
 	Slot string `json:"slot,omitempty"`
+	// RootAttrs: further attributes on the component's root <template> (they set variables for
+	// the component's content; names zr0, zr1 collide with nothing). What they set is not part of
+	// the model; asserted is only that the spellings :name="path" and v-bind:name="path" give the
+	// same output (docs/syntax.md: ":attr is equivalent to v-bind:attr"). Forces the root template.
+	RootAttrs []Prop `json:"root_attrs,omitempty"`
 	// File-level spelling: EOL "crlf" = the whole file has CRLF line endings; Fence = blanks after
 	// the front-matter fences: "" none, "open", "close", "both" (two spaces).
 	EOL   string `json:"eol,omitempty"`
@@ -355,6 +377,12 @@ type Case struct {
 	// WithProcessor / RegisterNodeProcessor) rewrites into <template include>.
 	Reg  string `json:"reg,omitempty"`
 	Proc string `json:"proc,omitempty"`
+	// Spelling of include / shorthand tags (equivalent in HTML): Quote "single" = attribute values
+	// in single quotes; Upper = tag and attribute NAMES in upper case (<TEMPLATE INCLUDE=… VA1=…>,
+	// <CARD-A>); Lines = one attribute per line with blanks around "=".
+	Quote string `json:"quote,omitempty"`
+	Upper bool   `json:"upper,omitempty"`
+	Lines bool   `json:"lines,omitempty"`
 	// After: the case is additionally rendered right after a FAILING render of a stale twin of
 	// itself (same templates and names, every value recognisably different, failure injected at
 	// the end of the page) and must meet the model all the same:
@@ -489,16 +517,31 @@ func block(id string, names []string, reads ...string) string {
 	return b.String()
 }
 
-func propAttr(p Prop) string {
+// attr writes one attribute in the case's spelling.
+func (c Case) attr(name, val string) string {
+	q, esc := `"`, html.EscapeString(val)
+	if c.Quote == "single" {
+		q, esc = "'", strings.ReplaceAll(strings.ReplaceAll(strings.ReplaceAll(strings.ReplaceAll(val, "&", "&amp;"), "<", "&lt;"), ">", "&gt;"), "'", "&#39;")
+	}
+	if c.Upper {
+		name = strings.ToUpper(name)
+	}
+	if c.Lines {
+		return name + " = " + q + esc + q
+	}
+	return name + "=" + q + esc + q
+}
+
+func (c Case) propAttr(p Prop) string {
 	switch p.Mode {
 	case "static", "json":
-		return fmt.Sprintf(`%s="%s"`, p.Name, html.EscapeString(p.Text))
+		return c.attr(p.Name, p.Text)
 	case "interp":
-		return fmt.Sprintf(`%s="%s{{ %s }}%s"`, p.Name, html.EscapeString(p.Text), p.Path, html.EscapeString(p.Post))
+		return c.attr(p.Name, p.Text+"{{ "+p.Path+" }}"+p.Post)
 	case "bind":
-		return fmt.Sprintf(`:%s="%s"`, p.Name, p.Path)
+		return c.attr(":"+p.Name, p.Path)
 	case "vbind":
-		return fmt.Sprintf(`v-bind:%s="%s"`, p.Name, p.Path)
+		return c.attr("v-bind:"+p.Name, p.Path)
 	}
 	return ""
 }
@@ -510,11 +553,15 @@ func incTag(c Case, inc Inc, short bool) string {
 	cp := c.Comps[inc.Comp]
 	var attrs []string
 	for _, p := range inc.Props {
-		attrs = append(attrs, propAttr(p))
+		attrs = append(attrs, c.propAttr(p))
 	}
-	a := strings.Join(attrs, " ")
+	sepA := " "
+	if c.Lines {
+		sepA = "\n    "
+	}
+	a := strings.Join(attrs, sepA)
 	if a != "" {
-		a = " " + a
+		a = sepA + a
 	}
 	d := inc.Place.directive()
 	if d != "" {
@@ -529,9 +576,16 @@ func incTag(c Case, inc Inc, short bool) string {
 	}
 	if short {
 		tag := compTag(cp)
+		if c.Upper {
+			tag = strings.ToUpper(tag)
+		}
 		return fmt.Sprintf("<%s%s%s>%s</%s>\n", tag, d, a, kids, tag)
 	}
-	return fmt.Sprintf(`<template%s include="%s"%s>%s</template>`+"\n", d, compPath(cp), a, kids)
+	tt := "template"
+	if c.Upper {
+		tt = "TEMPLATE"
+	}
+	return fmt.Sprintf("<%s%s%s%s%s>%s</%s>\n", tt, d, sepA, c.attr("include", compPath(cp)), a, kids, tt)
 }
 
 func body(c Case, id string, incs []Inc, short bool, slot string) string {
@@ -649,6 +703,8 @@ func files(c Case, short bool) map[string]string {
 					fmt.Fprintf(&b, "%s:\n", k)
 				case v == nil && cp.NullAs == "tilde":
 					fmt.Fprintf(&b, "%s: ~\n", k)
+				case cp.FMStyle == "qkeys":
+					fmt.Fprintf(&b, "%q: %s\n", k, jsonOf(v))
 				case cp.FMStyle == "plain" && plainYAML(v) != "":
 					fmt.Fprintf(&b, "%s:%s\n", k, plainYAML(v))
 				default:
@@ -658,10 +714,13 @@ func files(c Case, short bool) map[string]string {
 			b.WriteString(fence("close"))
 		}
 		inner := body(c, fmt.Sprintf("C%d", i), cp.Incs, short && c.NestedShort, cp.Slot)
-		if cp.Wrap || len(cp.Req) > 0 {
+		if cp.Wrap || len(cp.Req) > 0 || len(cp.RootAttrs) > 0 {
 			b.WriteString("<template")
 			for _, r := range cp.Req {
 				fmt.Fprintf(&b, ` %s="%s"`, r.Key, r.CSV)
+			}
+			for _, ra := range cp.RootAttrs {
+				b.WriteString(" " + Case{}.propAttr(ra))
 			}
 			b.WriteString(">\n" + inner + "</template>\n")
 		} else {
@@ -815,8 +874,8 @@ func filesFor(c Case, spell string) map[string]string {
 	page := files(c, true)["page.vuego"]
 	tags, _ := tagPaths(c)
 	for _, t := range tags {
-		re := regexp.MustCompile(`<(/?)` + regexp.QuoteMeta(t) + `([\s>])`)
-		page = re.ReplaceAllString(page, "<${1}"+procPrefix+t+"${2}")
+		re := regexp.MustCompile(`(?i)<(/?)(` + regexp.QuoteMeta(t) + `)([\s>])`)
+		page = re.ReplaceAllString(page, "<${1}"+procPrefix+"${2}${3}")
 	}
 	fl["page.vuego"] = page
 	return fl
@@ -1266,6 +1325,10 @@ func evals(incs []Inc, j int, sc scope) (out []scope, vague string) {
 			taken = taken || chosen
 		}
 		return nil, ""
+	case "ctx":
+		if p.Form != "svg-loop" {
+			return []scope{sc}, ""
+		}
 	case "slot-twice":
 		for _, w := range []string{"w1", "w2"} {
 			v, ok := sc[w]
@@ -1296,6 +1359,8 @@ func evals(incs []Inc, j int, sc scope) (out []scope, vague string) {
 func bindElem(p *Place, sc scope, el mv, i int) scope {
 	e := sc.with()
 	switch {
+	case p.Kind == "ctx":
+		e[loopVar] = el
 	case p.Kind == "loop":
 		e[p.loopVar()] = el
 		if p.Idx != "" {
@@ -2019,6 +2084,31 @@ func judge(what string, out string, err error, m result) error {
 	return nil
 }
 
+func hasRootAttrs(c Case) bool {
+	for _, cp := range c.Comps {
+		if len(cp.RootAttrs) > 0 {
+			return true
+		}
+	}
+	return false
+}
+
+// rootSpelling returns the case with every bound root-template attribute spelled mode.
+func rootSpelling(c Case, mode string) Case {
+	out := c
+	out.Comps = append([]Comp(nil), c.Comps...)
+	for i := range out.Comps {
+		ra := append([]Prop(nil), out.Comps[i].RootAttrs...)
+		for j := range ra {
+			if ra[j].Mode == "bind" || ra[j].Mode == "vbind" {
+				ra[j].Mode = mode
+			}
+		}
+		out.Comps[i].RootAttrs = ra
+	}
+	return out
+}
+
 func hasKid(n *hx.N, tag string) bool {
 	if n == nil {
 		return false
@@ -2093,6 +2183,24 @@ func check(c Case) error {
 	if m.vague == "" {
 		if e := judge("shorthand tag", outS, errS, m); e != nil {
 			return wrap(e)
+		}
+	}
+	// :name and v-bind:name are the same attribute: also on a component's root <template>.
+	if hasRootAttrs(c) {
+		o1, e1 := renderX(rootSpelling(c, "bind"), "", c.Root)
+		o2, e2 := renderX(rootSpelling(c, "vbind"), "", c.Root)
+		if (e1 == nil) != (e2 == nil) {
+			return wrap(fmt.Errorf("root <template> attributes spelled :name and v-bind:name disagree: :name error=%v, v-bind:name error=%v", e1, e2))
+		}
+		if e1 == nil {
+			a, p1 := hx.Frag(o1, hx.Collapse)
+			b, p2 := hx.Frag(o2, hx.Collapse)
+			if p1 != nil || p2 != nil {
+				return wrap(fmt.Errorf("output does not parse: %v %v", p1, p2))
+			}
+			if d := hx.Diff(a, b, hx.Options{}); d != "" {
+				return wrap(fmt.Errorf("a component whose root <template> sets variables with :name=\"path\" renders differently when the same attributes are spelled v-bind:name=\"path\" (left = :name, right = v-bind:name): %s", d))
+			}
 		}
 	}
 	// Includes produced by a pre-processing NodeProcessor (custom tags rewritten in place into
@@ -2343,6 +2451,10 @@ func classify(c Case) (bool, []string) {
 	add(c.After != "" && c.Root == "", "after-failure:"+c.After)
 	add(c.Entry != "", "entry:"+c.Entry)
 	add(c.Entry == "", "entry:load-fill-render")
+	add(hasRootAttrs(c), "spelling:root-template-attributes(:name vs v-bind:name)")
+	add(c.Quote != "", "spelling:single-quoted-attributes")
+	add(c.Upper, "spelling:upper-case-tag-and-attribute-names")
+	add(c.Lines, "spelling:one-attribute-per-line")
 	add(c.Reg != "", "registration:"+c.Reg)
 	add(c.Proc != "", "node-processor:"+c.Proc)
 	add(c.Root != "", "root-data:"+c.Root)
@@ -2627,7 +2739,7 @@ func genPlace(t *rapid.T, names []string, label string, rate int, multiOnly bool
 	if rapid.IntRange(0, 19).Draw(t, label+".placed") >= rate {
 		return nil
 	}
-	hi := 9
+	hi := 11
 	if multiOnly {
 		hi = 6
 	}
@@ -2649,6 +2761,8 @@ func genPlace(t *rapid.T, names []string, label string, rate int, multiOnly bool
 	case k < 7:
 		kind := []string{"slot-loop-named", "slot-loop-default", "slot-twice", "slot-loop-named"}[k-3]
 		return &Place{Kind: kind, Form: rapid.SampledFrom(slotForms[kind]).Draw(t, label+".form")}
+	case k >= 10:
+		return &Place{Kind: "ctx", Form: rapid.SampledFrom([]string{"svg", "math", "table", "svg-loop"}).Draw(t, label+".ctx")}
 	}
 	conds := []string{"ct", "cf"}
 	p := &Place{Kind: "chain", Role: rapid.SampledFrom([]string{"if", "if", "elseif", "else"}).Draw(t, label+".role")}
@@ -2834,7 +2948,7 @@ func genReq(t *rapid.T, names []string, label string) []Req {
 	}
 	switch rapid.IntRange(0, 2).Draw(t, label+".shape") {
 	case 0: // one CSV attribute
-		sep := rapid.SampledFrom([]string{",", ", ", " , "}).Draw(t, label+".sep")
+		sep := rapid.SampledFrom([]string{",", ", ", " , ", " ,", ",\n    ", "\n,", ",\t"}).Draw(t, label+".sep")
 		return []Req{{Key: key(0), CSV: strings.Join(names, sep)}}
 	case 1: // one attribute per name (the same key may repeat, as in docs/components.md)
 		var out []Req
@@ -2915,7 +3029,14 @@ func genCase(rec *ev.Rec, known *kf.File) func(t *rapid.T) Case {
 			if rapid.Bool().Draw(t, fmt.Sprintf("c%d.indir", i)) {
 				cp.Dir = rapid.SampledFrom(compDirs).Draw(t, fmt.Sprintf("c%d.dir", i))
 			}
-			cp.FMStyle = rapid.SampledFrom([]string{"", "plain"}).Draw(t, fmt.Sprintf("c%d.fmstyle", i))
+			cp.FMStyle = rapid.SampledFrom([]string{"", "plain", "qkeys"}).Draw(t, fmt.Sprintf("c%d.fmstyle", i))
+			if rapid.IntRange(0, 7).Draw(t, fmt.Sprintf("c%d.rootattrs", i)) == 0 {
+				cp.RootAttrs = []Prop{{Name: "zr0", Mode: rapid.SampledFrom([]string{"bind", "vbind"}).Draw(t, fmt.Sprintf("c%d.zr0", i)), Path: rapid.SampledFrom([]string{"d0", "d1", "dm.k", "7", "'s'"}).Draw(t, fmt.Sprintf("c%d.zr0path", i))},
+					{Name: "zr1", Mode: "static", Text: "rs"}}
+				if !contains(c.Reads, "zr0") {
+					c.Reads = append(c.Reads, "zr0", "zr1")
+				}
+			}
 			cp.Slot = rapid.SampledFrom([]string{"", "", "", "default", "named", "both"}).Draw(t, fmt.Sprintf("c%d.slot", i))
 			cp.EOL = rapid.SampledFrom([]string{"", "", "crlf"}).Draw(t, fmt.Sprintf("c%d.eol", i))
 			cp.Fence = rapid.SampledFrom([]string{"", "", "", "open", "close", "both"}).Draw(t, fmt.Sprintf("c%d.fence", i))
@@ -2997,6 +3118,9 @@ func genCase(rec *ev.Rec, known *kf.File) func(t *rapid.T) Case {
 		// every other value becomes a string and the placements (which need the list rows and the
 		// bools ct / cf) go; repair() then rebinds the paths that no longer resolve.
 		c.Entry = rapid.SampledFrom(entries).Draw(t, "entry")
+		c.Quote = rapid.SampledFrom([]string{"", "", "single"}).Draw(t, "quote")
+		c.Upper = rapid.IntRange(0, 3).Draw(t, "upper") == 0
+		c.Lines = rapid.IntRange(0, 3).Draw(t, "lines") == 0
 		c.Reg = rapid.SampledFrom([]string{"", "", "manual", "both"}).Draw(t, "reg")
 		c.Proc = rapid.SampledFrom([]string{"", "", "", "with", "register"}).Draw(t, "proc")
 		if rapid.IntRange(0, run.Pick(2, 1)).Draw(t, "afterfailure") == 0 {
@@ -3422,6 +3546,9 @@ func enumPlace(yield func(Case) bool) int {
 			places = append(places, []Place{{Kind: k, Form: f}})
 		}
 	}
+	for _, f := range []string{"svg", "math", "table", "svg-loop"} {
+		places = append(places, []Place{{Kind: "ctx", Form: f}})
+	}
 	for _, c1 := range []string{"ct", "cf"} {
 		places = append(places, []Place{{Kind: "chain", Role: "if", Cond: c1}}, []Place{{Kind: "chain", Role: "if", Cond: c1, Form: "open"}},
 			[]Place{{Kind: "chain", Role: "else", Pre: c1}})
@@ -3679,6 +3806,10 @@ func enumSpell(yield func(Case) bool) int {
 								FM: map[string]vals.V{"va1": vals.Int(500), "vb2": vals.Nil(), "vc3": vals.Str("only fm")}, Req: nil}}}
 						if wrap {
 							c.Comps[0].Req = []Req{{":required", "va1, vc3"}}
+						}
+						if z%2 == 0 {
+							c.Comps[0].RootAttrs = []Prop{{Name: "zr0", Mode: []string{"bind", "vbind"}[mi%2], Path: "d0"}, {Name: "zr1", Mode: "vbind", Path: "dm.k"}}
+							c.Reads = []string{"zr0", "zr1"}
 						}
 						if inData {
 							c.Data["va1"] = vals.Str("incl")
@@ -4055,6 +4186,9 @@ func TestProp(t *testing.T) {
 				c.Entry = entries[i%len(entries)]
 			}
 			c.Reg = []string{"", "manual", "both"}[(i/len(entries))%3]
+			c.Quote = []string{"", "single", ""}[(i/2)%3]
+			c.Upper = (i/3)%4 == 1
+			c.Lines = (i/5)%4 == 2
 			if i%4 == 1 {
 				c.Proc = []string{"with", "register"}[(i/4)%2]
 			}
@@ -4118,7 +4252,7 @@ func TestProp(t *testing.T) {
 		}
 	}
 	if full && !rec.Failed() {
-		rec.Exhaustive(run.Pick("quick tier: every second case of twice / chain / place; ", "") + fmt.Sprintf("flat: %d names x {5 prop modes x front-matter x includer x required} (%d); twice: same component twice, 5^4 prop modes x front-matter x includer (%d); chain: depth-3 chain, one name, 10 states per level x includer x leaf required (%d); types: 33 values (16 of them texts starting with [ or { that are not JSON) x 5 modes x 4 collisions + 7 JSON documents as static props (%d); place: 39 placements (loop, slot content, chain member) x 6 ways of passing va1 x front-matter x includer x required (%d); pool: component with 9..12 bindings followed by loop / slot placements, twice (%d); case: 5 names with upper-case letters x front-matter x includer x 4 :required spellings (%d); fmzero: 10 null / zero-ish front-matter values x 5 prop modes x includer x root template x nesting (%d); jsontpl: 8 JSON literals with 0..2 mustaches x 3 sources x includer x front-matter x nesting (%d); spell: LF/CRLF x fence blanks x prop mode (null spelling rotating) x includer x root template x page CRLF (%d); fill: 3 slot kinds (binding nothing) x 7 sets of slot templates declaring colliding variables x 4 prop modes x includer x root template x nesting (%d); dirs: 17 component folders x 3 file names x required prop provided or not x nesting (%d); braces: 6 texts before x 6 texts after a mustache (stray }} and {{) x includer x nesting (%d); blanks: 20 static / interpolated prop values with leading, trailing, inner blanks, tabs, newlines x includer x nesting x v-for (%d); literal: 9 literals in bound props x : / v-bind: x includer x required x nesting (%d, rewritten to variable paths while C05-literal-bound-prop-dropped is open)", run.Pick(2, 3), n1, n2, n3, n4, n5, n6, n7, n8, n9, n10, n11, n12, n13, n14, n15) + fmt.Sprintf("; dash: 9 front-matter values with dash runs x JSON / plain YAML x includer x CRLF x nesting (%d); root: 4 typed root data shapes x 3 entry points x 4 :required lists x prop x nesting (%d)", n16, n17))
+		rec.Exhaustive(run.Pick("quick tier: every second case of twice / chain / place; ", "") + fmt.Sprintf("flat: %d names x {5 prop modes x front-matter x includer x required} (%d); twice: same component twice, 5^4 prop modes x front-matter x includer (%d); chain: depth-3 chain, one name, 10 states per level x includer x leaf required (%d); types: 33 values (16 of them texts starting with [ or { that are not JSON) x 5 modes x 4 collisions + 7 JSON documents as static props (%d); place: 43 placements (loop, slot content, chain member, inside svg / math / table) x 6 ways of passing va1 x front-matter x includer x required (%d); pool: component with 9..12 bindings followed by loop / slot placements, twice (%d); case: 5 names with upper-case letters x front-matter x includer x 4 :required spellings (%d); fmzero: 10 null / zero-ish front-matter values x 5 prop modes x includer x root template x nesting (%d); jsontpl: 8 JSON literals with 0..2 mustaches x 3 sources x includer x front-matter x nesting (%d); spell: LF/CRLF x fence blanks x prop mode (null spelling rotating) x includer x root template x page CRLF (%d); fill: 3 slot kinds (binding nothing) x 7 sets of slot templates declaring colliding variables x 4 prop modes x includer x root template x nesting (%d); dirs: 17 component folders x 3 file names x required prop provided or not x nesting (%d); braces: 6 texts before x 6 texts after a mustache (stray }} and {{) x includer x nesting (%d); blanks: 20 static / interpolated prop values with leading, trailing, inner blanks, tabs, newlines x includer x nesting x v-for (%d); literal: 9 literals in bound props x : / v-bind: x includer x required x nesting (%d, rewritten to variable paths while C05-literal-bound-prop-dropped is open)", run.Pick(2, 3), n1, n2, n3, n4, n5, n6, n7, n8, n9, n10, n11, n12, n13, n14, n15) + fmt.Sprintf("; dash: 9 front-matter values with dash runs x JSON / plain YAML x includer x CRLF x nesting (%d); root: 4 typed root data shapes x 3 entry points x 4 :required lists x prop x nesting (%d)", n16, n17))
 	}
 
 	run.Rapid(t, rec, "random", genCase(rec, known), classify, check)
